@@ -130,7 +130,7 @@ pub fn gen_program(t: &mut Tape, wild: bool, max_ops: usize) -> Program {
         let k = t.below(64);
         let which = if t.chance(40) { 1 } else { 0 };
         let op = match k {
-            0 => Op::DInit { level: wild_int(t, -1, 9, wild), method: if wild && t.chance(30) { t.pick(&[0, 7, 9, -1]) } else { 8 }, wbits: { let w = wild_int(t, 8, 15, wild); match t.below(3) { 0 => -w, 1 => w, _ => w.saturating_add(16) } }, mem: wild_int(t, 1, 9, wild), strategy: wild_int(t, 0, 4, wild) },
+            0 => Op::DInit { level: wild_int(t, -1, 9, wild), method: if wild && t.chance(30) { t.pick(&[0, 7, 9, -1]) } else { 8 }, wbits: { let w = wild_int(t, 8, 15, wild); match t.below(3) { 0 => w.wrapping_neg(), 1 => w, _ => w.saturating_add(16) } }, mem: wild_int(t, 1, 9, wild), strategy: wild_int(t, 0, 4, wild) },
             1..=14 => Op::DDeflate { which, in_len: t.pick(&sizes), out_len: t.pick(&sizes), flush: if wild && t.chance(20) { t.pick(&[-1, 6, 7, 100, i32::MIN]) } else { t.pick(&[0, 0, 0, 1, 2, 3, 4, 5, 4]) } },
             15 | 16 => Op::DParams { which, level: wild_int(t, -1, 9, wild), strategy: wild_int(t, 0, 4, wild), out_len: t.pick(&sizes) },
             17 => {
